@@ -1,7 +1,8 @@
 import MoneroModel.Ref.Keccak
-/-! The reference sponge never changes the number of lanes: every write of `Ref/Keccak.lean` is a `set!` (size-preserving), so
-the state that starts as 25 zero lanes has 25 lanes after any number of absorbed blocks — the totalised accessors `st[i]!` of the
-reference (`i < 25` everywhere) never fall back to their default value. Core Lean only. -/
+/-! The reference sponge never changes the number of lanes: every write of `Ref/Keccak.lean` is a `set!` (size-preserving, in range
+or not), so the state that starts as 25 zero lanes has 25 lanes after any number of absorbed blocks. This says nothing about the
+INDICES used; that no totalised accessor `st[i]!` / `set!` / `rc[r]!` of the reference falls back is proved in
+`Proofs/KeccakChecked.lean`, which uses the size invariant of this file as its hypothesis. Core Lean only. -/
 namespace Keccak
 
 theorem foldl_inv {α β : Type} (P : β → Prop) (f : β → α → β) (hf : ∀ b a, P b → P (f b a)) :
